@@ -25,5 +25,12 @@ for f in F:
     sh("git -C /repo checkout -- . && git -C /repo clean -fdq")
     out.append(rec)
     print(rec["id"], rec.get("caught"), rec.get("error", ""), flush=True)
-json.dump({"repo_head": sh("git -C /repo rev-parse --short HEAD").stdout.strip(), "results": out}, open("/verif/hunt/SENSITIVITY.json", "w"), indent=1)
+prev = {}
+if os.path.exists("/verif/hunt/SENSITIVITY.json"):
+    for r in json.load(open("/verif/hunt/SENSITIVITY.json")).get("results", []):
+        prev[r["id"]] = r
+for r in out:
+    prev[r["id"]] = r
+merged = sorted(prev.values(), key=lambda r: int(r["id"][1:]))
+json.dump({"repo_head": sh("git -C /repo rev-parse --short HEAD").stdout.strip(), "results": merged}, open("/verif/hunt/SENSITIVITY.json", "w"), indent=1)
 os.remove("/tmp/fs.diff")
